@@ -1100,6 +1100,168 @@ func c17Judge(run *vk.Run, w *c17QWorld, cs c17QCase, errs []error, inWindow int
 	}
 }
 
+func c17GID() int64 {
+	var buf [64]byte
+	b := buf[:runtime.Stack(buf[:], false)]
+	b = b[len("goroutine "):]
+	var id int64
+	for _, ch := range b {
+		if ch < '0' || ch > '9' {
+			break
+		}
+		id = id*10 + int64(ch-'0')
+	}
+	return id
+}
+
+// c17StaggeredTrial: k >= 3 requests of ONE client arrive one after another, each while
+// its predecessor is held inside the count-then-create section (at its first mutating
+// storage operation, i.e. after it has counted): A inside, B arrives (queues behind A in a
+// correctly serialised service), A leaves, B gets inside and is held, C arrives, B leaves,
+// ... Occupancy is quota-2 so that two requests inside at once would both pass the count.
+// The driver only decides when to start and release requests; "queued behind the
+// predecessor" is inferred from no arrival within c17Stall (a scheduling decision).
+func c17StaggeredTrial(run *vk.Run, kind string, Q, k int) {
+	cs := c17QCase{Kind: kind, Quota: Q, Prefill: Q - 2, N: k, Mode: "staggered", Nodes: 1}
+	var w *c17QWorld
+	if kind == "code-quota" {
+		w = c17NewQWorld(Q, 1000, 1)
+	} else {
+		w = c17NewQWorld(1000, Q, 1)
+	}
+	defer w.close()
+	reqs, _, ok := c17Setup(w, cs)
+	if !ok {
+		run.Count(kind+"_prefill_refused", 1)
+		return
+	}
+	run.Case(kind+"-staggered", cs)
+	arrived := make([]chan struct{}, k)
+	done := make([]chan struct{}, k)
+	release := make([]chan struct{}, k)
+	held := make([]atomic.Bool, k)
+	errs := make([]error, k)
+	for i := range arrived {
+		arrived[i], done[i], release[i] = make(chan struct{}), make(chan struct{}), make(chan struct{})
+	}
+	var gids sync.Map
+	w.g.SetHook(func(tier, op, key string) error {
+		if !c17IsWrite(op) {
+			return nil
+		}
+		v, ok := gids.Load(c17GID())
+		if !ok {
+			return nil
+		}
+		i := v.(int)
+		if held[i].CompareAndSwap(false, true) {
+			close(arrived[i])
+			select {
+			case <-release[i]:
+			case <-time.After(c17Watchdog):
+			}
+		}
+		return nil
+	})
+	start := func(i int) {
+		go func() {
+			gids.Store(c17GID(), i)
+			errs[i] = reqs[i]()
+			close(done[i])
+		}()
+	}
+	// wait until request i is inside (held) or has returned; stall=true: give up after c17Stall
+	wait := func(i int, stall bool) (state string) {
+		var t <-chan time.Time
+		if stall {
+			t = time.After(c17Stall)
+		} else {
+			t = time.After(c17Watchdog)
+		}
+		select {
+		case <-arrived[i]:
+			return "inside"
+		case <-done[i]:
+			return "returned"
+		case <-t:
+			if stall {
+				return "queued"
+			}
+			return "watchdog"
+		}
+	}
+	abort := func() {
+		for i := range release {
+			select {
+			case <-release[i]:
+			default:
+				close(release[i])
+			}
+		}
+		run.Count("watchdog", 1)
+	}
+	start(0)
+	if wait(0, false) == "watchdog" {
+		abort()
+		return
+	}
+	twoInside, lateWhileInside := 0, 0
+	for i := 1; i < k; i++ {
+		predInside := held[i-1].Load()
+		select {
+		case <-done[i-1]:
+			predInside = false
+		default:
+		}
+		start(i)
+		st := wait(i, true)
+		if predInside {
+			lateWhileInside++
+			if st == "inside" {
+				twoInside++ // only possible if the section does not serialise this client's requests
+			}
+		}
+		close(release[i-1])
+		select {
+		case <-done[i-1]:
+		case <-time.After(c17Watchdog):
+			abort()
+			return
+		}
+		if wait(i, false) == "watchdog" {
+			abort()
+			return
+		}
+	}
+	close(release[k-1])
+	for i := 0; i < k; i++ {
+		select {
+		case <-done[i]:
+		case <-time.After(c17Watchdog):
+			abort()
+			return
+		}
+	}
+	w.g.SetHook(nil)
+	admitted := 0
+	for _, e := range errs {
+		if e == nil {
+			admitted++
+		}
+	}
+	usable := w.usable(cs)
+	run.Eval(1)
+	run.Count(kind+"_staggered_arrivals_while_predecessor_inside", int64(lateWhileInside))
+	if twoInside > 0 {
+		run.Count(kind+"_staggered_two_inside_section", int64(twoInside))
+	}
+	run.Distinct(fmt.Sprintf("%s|staggered|Q%d|k%d|adm%d|two%d", kind, Q, k, admitted, twoInside))
+	if usable > Q {
+		run.Violation(c17Sig(cs, "exceeded|staggered-requests"), map[string]any{"case": cs, "admitted": admitted, "usable_in_store": usable, "quota": Q,
+			"arrivals_while_predecessor_inside": lateWhileInside, "arrivals_that_got_inside_next_to_predecessor": twoInside})
+	}
+}
+
 // c17HoldTrial: real goroutines, racers held at their first mutating storage operation.
 func c17HoldTrial(run *vk.Run, cs c17QCase) {
 	var w *c17QWorld
@@ -1260,6 +1422,7 @@ func c17QuotaMonitor(t *testing.T, kind, name string) {
 	run.Rule(what + " with quota Q in {1,2,5}: fill to Q-1 (or Q-2), then N in {2,8,32} concurrent requests. mode hold: each request is held at its first mutating storage operation until K in {2..N} requests are there; " +
 		"mode free: spin barrier only; mode sched: every storage operation is a gate of vk.Sched with a seeded random chooser (N in {2,8}); mode explore: N=2, all schedules with <=2 (thorough: 3) preemptions (capped by runs and by total scheduling steps); 1 in 5 trials places the racers on two service nodes sharing the store. " +
 		"interposed-read: one admission with a lock-free read request of the same client (list codes / list mappings, node 0 or 1) served before its j-th storage operation, for every j, then admissions until refused; half of the sched trials add such a reader thread. " +
+		"staggered: k in {3,4,5} requests of one client at occupancy Q-2, each started while its predecessor is held at its first mutating storage operation (inside the count-then-create section), predecessor released, successor gets inside and is held, next one starts ...; " +
 		"object histories: the client's index built entry by entry (live entries, entries whose records are gone - deleted or expired by a 15 ms TTL - before/between/after the live ones, mappings whose status was rewritten with other spellings, owner ids 1..2^63-1), then requests until refused; usable records are counted with the product's own validity predicates. " +
 		"sequential-across-nodes: Q+3 strictly sequential requests served in turn by 2-3 nodes that each sit behind their own HybridStorage (local cache + one shared cache, default prefix routing); claim-held (code quota): owner at quota, an activation of one of his codes suspended after taking the claim, one more code requested, then the activation fails on the mapping write and is released; 1 in 10 hold trials uses the hybrid deployment. " +
 		"index-writers (mapping quota): X's activation and the activation by Y of a code whose target is X, one suspended before each of its storage operations while the other completes, then X activates until refused; read-fault: at the quota, one more request whose k-th storage read fails once, every k. " +
@@ -1273,6 +1436,7 @@ func c17QuotaMonitor(t *testing.T, kind, name string) {
 	run.Floor(pre+"interposed_positions", 20)
 	run.Floor(pre+"read_faults_injected", 5)
 	run.Floor(pre+"object_histories", 40)
+	run.Floor(pre+"staggered_arrivals_while_predecessor_inside", 20)
 	run.Floor(pre+"object_history_refused_at_quota", 20)
 	run.Floor(pre+"sequential_nodes_refused_at_quota", 10)
 	if kind == "code-quota" {
@@ -1336,6 +1500,16 @@ func c17QuotaMonitor(t *testing.T, kind, name string) {
 				ops := c17IndexWritersTrial(run, Q, outer, -1)
 				for j := 0; j < ops && j < 60 && run.Violations() < 20; j++ {
 					c17IndexWritersTrial(run, Q, outer, j)
+				}
+			}
+		}
+	}
+	// k >= 3 staggered requests of one client, each arriving while its predecessor is held inside the section
+	for rep := 0; rep < run.Pick(3, 40); rep++ {
+		for _, Q := range []int{2, 3} {
+			for _, k := range []int{3, 4, 5} {
+				if run.Violations() < 20 {
+					c17StaggeredTrial(run, kind, Q, k)
 				}
 			}
 		}
